@@ -84,6 +84,12 @@ class TextSlice:
         self.text, self.a, self.b = text, a, b
 
 
+class CharV:
+    """one element of the text: a 1-character str (text mode) or an int (bytes mode)"""
+    def __init__(self, code, is_bytes):
+        self.code, self.is_bytes = code, is_bytes
+
+
 class Opaque:
     """python-side marker value understood only by hooks (matchers, matches, functions ...)"""
     def __init__(self, tag, **kw):
@@ -92,6 +98,35 @@ class Opaque:
 
     def __repr__(self):
         return f'Opaque({self.tag})'
+
+
+class DictV:
+    """python dict: domain set + value map (keys compared as terms)"""
+    def __init__(self, dom, map_):
+        self.dom, self.map = dom, map_
+
+
+class ArrList:
+    """python list of k-tuples held positionally: k arrays Int -> Val sharing one length (for stacks whose
+    invariants talk about positions)"""
+    def __init__(self, arrs, n):
+        self.arrs, self.n = tuple(arrs), n
+
+    @property
+    def arity(self):
+        return len(self.arrs)
+
+
+class Fork(Exception):
+    """raised during expression evaluation to split the current statement on a condition"""
+    def __init__(self, key, cond):
+        self.key, self.cond = key, cond
+
+
+class Raised(Exception):
+    """raised during expression evaluation: the call does not return (python exception), st.exc is set"""
+    def __init__(self, st):
+        self.st = st
 
 
 class VC:
@@ -115,12 +150,14 @@ class St:
         self.frozen = set()      # list variables whose value was stored elsewhere (aliased)
         self.ret = None
         self.exc = None
+        self.decisions = {}
 
     def fork(self):
         s = St(self.env, self.pc, self.heap, self.ghost, self.trace)
         s.guards = list(self.guards)
         s.frozen = set(self.frozen)
         s.ret, s.exc = self.ret, self.exc
+        s.decisions = dict(self.decisions)
         return s
 
     def assume(self, *fs):
@@ -253,6 +290,8 @@ class Exec:
             return BoolVal(len(v.items) > 0)
         if isinstance(v, StrLit):
             return BoolVal(len(v.value) > 0)
+        if isinstance(v, ArrList):
+            return v.n > 0
         if isinstance(v, Opaque) and hasattr(v, 'truth'):
             return v.truth
         if v is None:
@@ -313,6 +352,11 @@ class Exec:
             return Unit(xs[0])
         return Concat(*[Unit(x) for x in xs])
 
+    def ev_Dict(self, e, st):
+        if e.keys:
+            raise OutOfSubset('non-empty dict display')
+        return DictV(z3.K(Val, BoolVal(False)), self.fv('emptymap', z3.ArraySort(Val, Val)))
+
     def ev_UnaryOp(self, e, st):
         if isinstance(e.op, ast.Not):
             return Not(self.truth(self.ev(e.operand, st), st))
@@ -351,6 +395,16 @@ class Exec:
         if op in (ast.Is, ast.IsNot, ast.Eq, ast.NotEq):
             r = self.equal(a, b, st, identity=op in (ast.Is, ast.IsNot))
             return Not(r) if op in (ast.IsNot, ast.NotEq) else r
+        if op in (ast.In, ast.NotIn):
+            if isinstance(b, DictV):
+                r = Select(b.dom, self.box(a))
+                return Not(r) if op is ast.NotIn else r
+            h = getattr(self, 'contains_hook', None)
+            if h is not None:
+                r = h(self, a, b, st)
+                if r is not NotImplemented:
+                    return Not(r) if op is ast.NotIn else r
+            raise OutOfSubset(f'membership test in {b!r}')
         if op in (ast.Lt, ast.LtE, ast.Gt, ast.GtE):
             a, b = self.as_int(a), self.as_int(b)
             return {ast.Lt: a < b, ast.LtE: a <= b, ast.Gt: a > b, ast.GtE: a >= b}[op]
@@ -366,12 +420,26 @@ class Exec:
         raise OutOfSubset(f'int expected, got {v!r}')
 
     def equal(self, a, b, st, identity=False):
+        for x, y in ((a, b), (b, a)):
+            if isinstance(x, Opaque) and hasattr(x, 'is_none') and isinstance(y, z3.ExprRef) and y.eq(NONE):
+                return x.is_none
         if isinstance(a, TextSlice) and isinstance(b, StrLit):
             return self.slice_eq(a, b.value)
         if isinstance(b, TextSlice) and isinstance(a, StrLit):
             return self.slice_eq(b, a.value)
         if isinstance(a, StrLit) and isinstance(b, StrLit):
             return BoolVal(a.value == b.value and type(a.value) is type(b.value))
+        if isinstance(b, CharV) and not isinstance(a, CharV):
+            a, b = b, a
+        if isinstance(a, CharV):
+            if isinstance(b, StrLit):
+                if a.is_bytes or not isinstance(b.value, str) or len(b.value) != 1:
+                    return BoolVal(False)        # int == str / str == bytes / length mismatch
+                return a.code == ord(b.value)
+            if isinstance(b, z3.ArithRef):
+                return a.code == b if a.is_bytes else BoolVal(False)
+            if isinstance(b, CharV):
+                return a.code == b.code if a.is_bytes == b.is_bytes else BoolVal(False)
         if isinstance(a, z3.ExprRef) and isinstance(b, z3.ExprRef) and a.sort() == b.sort():
             return a == b
         if isinstance(a, Tup) and isinstance(b, Tup):
@@ -455,6 +523,20 @@ class Exec:
             idx = self.as_int(idx)
             self.safety(st, 'text-index', e, And(-recv.n <= idx, idx < recv.n))
             return Select(recv.arr, If(idx >= 0, idx, recv.n + idx))
+        if isinstance(recv, ArrList):
+            k = _const_int(idx)
+            if k is not None and k < 0:
+                self.safety(st, 'index', e, recv.n + k >= 0)
+                at = recv.n + k
+            else:
+                at = self.as_int(idx)
+                self.safety(st, 'index', e, And(0 <= at, at < recv.n))
+            items = [Select(a, at) for a in recv.arrs]
+            return items[0] if len(items) == 1 else Tup(items)
+        if isinstance(recv, DictV):
+            k = self.box(idx)
+            self.safety(st, 'dict-key-present', e, Select(recv.dom, k))
+            return Select(recv.map, k)
         if self.subscript_hook is not None:
             r = self.subscript_hook(self, e, recv, idx, st)
             if r is not NotImplemented:
@@ -512,6 +594,8 @@ class Exec:
                     return Length(v)
                 if isinstance(v, TextV):
                     return v.n
+                if isinstance(v, ArrList):
+                    return v.n
                 if isinstance(v, Tup):
                     return IntVal(len(v.items))
                 if isinstance(v, StrLit):
@@ -534,6 +618,8 @@ class Exec:
             if isinstance(f.value, ast.Name) and f.value.id in st.env and isinstance(st.env[f.value.id], z3.SeqRef) \
                     and f.attr in ('append', 'pop', 'extend'):
                 return self.list_method(e, f.value.id, f.attr, st)
+            if isinstance(f.value, ast.Name) and isinstance(st.env.get(f.value.id), ArrList) and f.attr in ('append', 'pop'):
+                return self.arrlist_method(e, f.value.id, f.attr, st)
             recv = self.ev(f.value, st)
             h = self.method_hooks.get(f.attr)
             if h is not None:
@@ -554,7 +640,11 @@ class Exec:
         if meth == 'append':
             if len(e.args) != 1:
                 raise OutOfSubset('append arity')
-            x = self.box(self.ev(e.args[0], st))
+            x = self.ev(e.args[0], st)
+            if s.sort() == SeqI:
+                x = self.as_int(x)            # list declared by the contract to hold ints only
+            else:
+                x = self.box(x)
             st.env[name] = Concat(s, Unit(x))
             return NONE
         if meth == 'extend':
@@ -570,6 +660,22 @@ class Exec:
             st.env[name] = SubSeq(s, 0, Length(s) - 1)
             return s[Length(s) - 1]
         raise OutOfSubset(meth)
+
+    def arrlist_method(self, e, name, meth, st):
+        L = st.env[name]
+        if meth == 'append':
+            x = self.ev(e.args[0], st)
+            items = list(x.items) if isinstance(x, Tup) else [x]
+            if len(items) != L.arity:
+                raise OutOfSubset('arity of appended tuple')
+            st.env[name] = ArrList([Store(a, L.n, self.box(v)) for a, v in zip(L.arrs, items)], L.n + 1)
+            return NONE
+        if e.args:
+            raise OutOfSubset('pop(index)')
+        self.safety(st, 'pop-nonempty', e, L.n > 0)
+        items = [Select(a, L.n - 1) for a in L.arrs]
+        st.env[name] = ArrList(L.arrs, L.n - 1)
+        return items[0] if len(items) == 1 else Tup(items)
 
     def ev_Yield(self, e, st):
         if self.yield_hook is None:
@@ -617,6 +723,14 @@ class Exec:
             if self.setattr_hook is not None and self.setattr_hook(self, tgt, recv, v, st):
                 return
             raise OutOfSubset(f'attribute store .{tgt.attr}')
+        if isinstance(tgt, ast.Subscript) and isinstance(tgt.value, ast.Name) and isinstance(st.env.get(tgt.value.id), DictV):
+            d = st.env[tgt.value.id]
+            k = self.box(self.ev(tgt.slice, st))
+            h = getattr(self, 'dict_store_hook', None)
+            if h is not None:
+                h(self, tgt.value.id, k, self.box(v), st)
+            st.env[tgt.value.id] = DictV(Store(d.dom, k, BoolVal(True)), Store(d.map, k, self.box(v)))
+            return
         if isinstance(tgt, ast.Subscript):
             h = getattr(self, 'setitem_hook', None)
             if h is not None and h(self, tgt, v, st):
@@ -642,12 +756,43 @@ class Exec:
             live = nxt
         return [('fall', q) for q in live] + done
 
+    def decide(self, st, node, cond, tag=''):
+        """branch on `cond` in the middle of an expression: the enclosing statement is re-executed once per outcome"""
+        key = (id(node), tag)
+        if key in st.decisions:
+            return st.decisions[key]
+        raise Fork(key, cond)
+
     def stmt(self, s, st):
         self.covered.add(id(s))
         m = getattr(self, 'st_' + type(s).__name__, None)
         if m is None:
             raise OutOfSubset(f'statement {type(s).__name__}')
-        res = m(s, st)
+        bh = getattr(self, 'before_stmt', None)
+        snap = st.fork()
+        nvc = len(self.vcs)
+        try:
+            res = None
+            if bh is not None:
+                res = bh(self, s, st)
+            if res is None:
+                res = m(s, st)
+        except Fork as f:
+            del self.vcs[nvc:]
+            out = []
+            for val in (True, False):
+                q = snap.fork()
+                q.decisions[f.key] = val
+                q.assume(f.cond if val else Not(f.cond))
+                q.trace.append(f'decide@{self.ordn(s)}:{"T" if val else "F"}')
+                if self.feasible(q):
+                    out += self.stmt(s, q)
+            return out
+        except Raised as r:
+            return [('raise', r.st)]
+        if not isinstance(s, (ast.If, ast.While, ast.For, ast.Try)):
+            for k, r in res:
+                r.decisions = {}
         if self.after_stmt is not None:
             for k, r in res:
                 if k == 'fall':
@@ -757,6 +902,10 @@ class Exec:
             return Tup([self.havoc_value(f'{name}_{i}', x) for i, x in enumerate(v.items)])
         if isinstance(v, StrLit):
             return self.fv(name, Val)
+        if isinstance(v, DictV):
+            return DictV(self.fv(name + '_dom', v.dom.sort()), self.fv(name + '_map', v.map.sort()))
+        if isinstance(v, ArrList):
+            return ArrList([self.fv(f'{name}_a{i}', a.sort()) for i, a in enumerate(v.arrs)], self.fv(name + '_n', I))
         if isinstance(v, Opaque) and hasattr(v, 'havoc'):
             return v.havoc(self, name)
         raise OutOfSubset(f'cannot havoc {name} = {v!r}')
@@ -791,9 +940,75 @@ class Exec:
 
     def st_For(self, s, st):
         h = getattr(self, 'for_hook', None)
-        if h is None:
-            raise OutOfSubset('for loop')
-        return h(self, s, st)
+        if h is not None:
+            r = h(self, s, st)
+            if r is not NotImplemented:
+                return r
+        if s.orelse:
+            raise OutOfSubset('for-else')
+        it = self.ev(s.iter, st)
+        if isinstance(it, TextV):
+            n, elem = it.n, (lambda i: CharV(Select(it.arr, i), it.is_bytes))
+        elif isinstance(it, z3.SeqRef):
+            n, elem = Length(it), (lambda i: it[i])
+        elif isinstance(it, Opaque) and hasattr(it, 'iter_len'):
+            n, elem = it.iter_len, it.iter_elem
+        else:
+            raise OutOfSubset(f'for over {it!r}')
+        return self.run_for(s, st, n, elem)
+
+    def run_for(self, s, st, n, elem):
+        """for <target> in <sequence of length n with elements elem(i)>: index loop with invariant over i"""
+        ordn = self.loop_ord[id(s)]
+        spec = self.loops.get(ordn)
+        if spec is None:
+            raise OutOfSubset(f'for loop {ordn} without invariant')
+        if isinstance(s.iter, ast.Name) and s.iter.id in self.assigned(s.body):
+            raise OutOfSubset('loop body modifies the sequence it iterates over')
+        st.ghost['i'] = IntVal(0)
+        st.ghost['n'] = n
+        spec.enter(self, st)
+        for name, g in spec.inv(self, st):
+            self.vcs.append(VC(f'loop{ordn}:entry:{name}', st.pc, g, 'inv-entry', path=list(st.trace)))
+        h = st.fork()
+        h.trace.append(f'loop{ordn}:head')
+        targets = set()
+        for t in ast.walk(s.target):
+            if isinstance(t, ast.Name):
+                targets.add(t.id)
+        for v in sorted(self.assigned(s.body) | targets):
+            if v in h.env:
+                h.env[v] = self.havoc_value(v, h.env[v])
+                h.frozen.discard(v)
+        i = self.fv('i', I)
+        h.ghost['i'] = i
+        h.assume(0 <= i, i <= n)
+        spec.havoc(self, h)
+        for name, g in spec.inv(self, h):
+            h.assume(g)
+        res = []
+        done = h.fork()
+        done.assume(i == n)
+        done.trace.append(f'loop{ordn}:exhausted')
+        if self.feasible(done):
+            spec.leave(self, done)
+            res.append(('fall', done))
+        b = h.fork()
+        b.assume(i < n)
+        if self.feasible(b):
+            self.assign(s.target, elem(i), b)
+            for k, q in self.block(s.body, b):
+                if k == 'break':
+                    spec.leave(self, q)
+                    res.append(('fall', q))
+                elif k in ('fall', 'continue'):
+                    q.ghost['i'] = q.ghost['i'] + 1
+                    spec.step(self, q)
+                    for name, g in spec.inv(self, q):
+                        self.vcs.append(VC(f'loop{ordn}:preserve:{name}', q.pc, g, 'inv-preserve', path=list(q.trace)))
+                else:
+                    res.append((k, q))
+        return res
 
     def st_FunctionDef(self, s, st):
         h = getattr(self, 'def_hook', None)
